@@ -19,7 +19,8 @@ RULE = ('case = many-valued context (1-3 columns of the four shipped structures,
         'x operation: closures of all non-empty object subsets (intention_i + extension_i), extension_i with a '
         'sub-dictionary of descriptions and a base set, by-name extension/intention, binarize, '
         'ConceptLattice.from_context with n_projections_to_binarize in {0, 1000}, close_by_one, '
-        'close_by_one_objectwise; plus a mutate-then-requery stream (context built on a first table and queried, '
+        'close_by_one_objectwise, PatternConcept.from_objects (all four views), describe_pattern; half of the '
+        'multi-column contexts have pattern_types in an order different from attribute_names; plus a mutate-then-requery stream (context built on a first table and queried, '
         'then one or more columns replaced in place through AbstractPS.data = ... or MVContext.pattern_structures '
         '= ..., then every operation again, judged against the model/spec of the second table); non-trivial = at least 2 rows, some column not constant, and for the lattice '
         'operations at least 3 concepts')
@@ -62,16 +63,28 @@ def _preload():
         pass
 
 
+def attr_order(case):
+    m = len(case['cols'])
+    o = case.get('attr_order')
+    if not o or sorted(o) != list(range(m)):
+        return list(range(m))
+    return list(o)
+
+
 def make_context(case, cols=None):
     from fcapy.mvcontext import MVContext, pattern_structure as PS
     cls = {'interval': PS.IntervalPS, 'interval_np': PS.IntervalNumpyPS, 'set': PS.SetPS, 'attr': PS.AttributePS}
     s = case.get('scale', 1)
     n = case['n']
     cols = case['cols'] if cols is None else cols
-    data = [[py_cell(c['kind'], c['data'][g], s, g + j) for j, c in enumerate(cols)] for g in range(n)]
-    anames = [pname(k) for k in case['pnames']]
-    ptypes = {nm: cls[c['kind']] for nm, c in zip(anames, cols)}
-    return MVContext(data, ptypes, object_names=[oname(k) for k in case['onames']], attribute_names=anames)
+    # the structures are created in the order of the pattern_types dict (= cols / pnames order);
+    # attribute_names (= the order of the data columns) may be any permutation of it
+    order = attr_order(case)
+    data = [[py_cell(cols[j]['kind'], cols[j]['data'][g], s, g + j) for j in order] for g in range(n)]
+    ps_names = [pname(k) for k in case['pnames']]
+    ptypes = {nm: cls[c['kind']] for nm, c in zip(ps_names, cols)}
+    return MVContext(data, ptypes, object_names=[oname(k) for k in case['onames']],
+                     attribute_names=[ps_names[j] for j in order])
 
 
 def col_cells(case, j, col):
@@ -151,6 +164,32 @@ def concept_out(case, c):
     return [sorted(ext), descs_from_dict(case, dict(c.intent_i))]
 
 
+def parse_described(case, text, kinds):
+    s = case.get('scale', 1)
+    out = []
+    if text == '':
+        return out
+    for part in text.split('; '):
+        m = re.fullmatch(r'p(\d+)(?:: (.*))?', part)
+        if not m:
+            raise ValueError('cannot parse %r' % part)
+        k = int(m.group(1))
+        kind = kinds[k]
+        body = m.group(2)
+        if kind == 'attr':
+            if body is not None:
+                raise ValueError('cannot parse %r' % part)
+            out.append([k, True])
+        elif kind == 'set':
+            out.append([k, [] if body == '∅' else sorted(int(x) for x in body.split(', '))])
+        elif body == '∅':
+            out.append([k, None])
+        else:
+            mm = re.fullmatch(r'\((.+), (.+)\)', body)
+            out.append([k, [c13._unscale(float(mm.group(1)), s), c13._unscale(float(mm.group(2)), s)]])
+    return out
+
+
 def run_impl(case):
     def go():
         import numpy as np
@@ -194,6 +233,20 @@ def run_impl(case):
                 for ch in chs:
                     cov.append([cs[ch][0], cs[i][0]])
             return {'concepts': cs, 'covers': cov}
+        if op == 8:
+            from fcapy.lattice.pattern_concept import PatternConcept
+            c = PatternConcept.from_objects(list(case['subsets'][0]), K, is_extent=(case['thr'] == 1))
+            ii = descs_from_dict(case, dict(c.intent_i))
+            named = []
+            for pos, (nm, v) in enumerate(c.intent.items()):
+                named.append([int(nm[1:]), c13.desc_from_py(kind_of(case, pos), v, s)])
+            return {'ext_i': canon(list(c.extent_i)), 'ext': [int(x[1:]) for x in c.extent], 'int_i': ii,
+                    'int': named}
+        if op == 9:
+            kinds = {k: c['kind'] for k, c in zip(case['pnames'], case['cols'])}
+            dd = {pname(k): c13.desc_to_py(kinds.get(k, case['ds_kinds'][j]), d, s)
+                  for j, (k, d) in enumerate(case['ds'])}
+            return parse_described(case, K.describe_pattern(dd), kinds)
         if op == 6:
             return [concept_out(case, c) for c in cca.close_by_one(K, n_projections_to_binarize=case['thr'])]
         return [concept_out(case, c) for c in cca.close_by_one_objectwise(K)]
@@ -209,7 +262,8 @@ def run_impl(case):
 
 def ctx_term(case):
     cols = coq([c13.col_term(c['kind'], c['data']) for c in case['cols']])
-    return Raw('(mkMV %d %s %s %s)' % (case['n'], cols, coq(case['onames']), coq(case['pnames'])))
+    anames = [case['pnames'][j] for j in attr_order(case)]
+    return Raw('(mkMV %d %s %s %s %s)' % (case['n'], cols, coq(case['onames']), coq(case['pnames']), coq(anames)))
 
 
 def descs_term(case, ds):
@@ -235,9 +289,14 @@ def impl_term(case, out):
         return '(OClosures %s)' % coq([Raw('(%s, %s)' % (descs_term(case, ds), coq(e))) for ds, e in v])
     if op in (1, 2):
         return '(OIdx %s)' % coq(v) if idx_ok(v) else '(OErr 12)'
-    if op == 3:
+    if op in (3, 9):
         kinds = {k: c['kind'] for k, c in zip(case['pnames'], case['cols'])}
         return '(ODescs %s)' % coq([Raw('(%d, %s)' % (k, c13.desc_term(kinds[k], d))) for k, d in v])
+    if op == 8:
+        named = coq([Raw('(%d, %s)' % (k, c13.desc_term(kind_of(case, pos), d))) for pos, (k, d) in enumerate(v['int'])])
+        if not (idx_ok(v['ext_i']) and idx_ok(v['ext'])):
+            return '(OErr 12)'
+        return '(OViews %s %s %s %s)' % (coq(v['ext_i']), coq(v['ext']), descs_term(case, v['int_i']), named)
     if op == 4:
         return '(OBin %s %d %s %d)' % (coq(v['table']), v['nbin'], coq(v['onames']), v['n_attr_names'])
     if op == 5:
@@ -250,7 +309,7 @@ def to_coq(case, out):
     op = case['op']
     if op == 1:
         ds = coq([Raw('(%d, %s)' % (i, c13.desc_term(kind_of(case, i), d))) for i, d in case['ds']])
-    elif op == 2:
+    elif op in (2, 9):
         kinds = {k: c['kind'] for k, c in zip(case['pnames'], case['cols'])}
         ds = coq([Raw('(%d, %s)' % (k, c13.desc_term(kinds.get(k, case['ds_kinds'][j]), d)))
                   for j, (k, d) in enumerate(case['ds'])])
@@ -311,8 +370,12 @@ def column_descs(col):
 
 def base_ctx(rng, n, cols, scale=1):
     m = len(cols)
+    order = list(range(m))
+    if m >= 2 and rng.random() < 0.5:
+        while order == list(range(m)):
+            rng.shuffle(order)
     return {'n': n, 'scale': scale, 'cols': [{'kind': c['kind'], 'data': c['data']} for c in cols],
-            'grids': [c['grid'] for c in cols],
+            'grids': [c['grid'] for c in cols], 'attr_order': order,
             'onames': rng.sample(range(60), n), 'pnames': rng.sample(range(60), m)}
 
 
@@ -339,7 +402,7 @@ def cases_for_context(rng, ctx, cols, ops=None, origin='random'):
         c.update({'op': op, 'subsets': [], 'ds': [], 'base': None, 'thr': 0, 'origin': origin})
         c.update(kw)
         return c
-    ops = ops or [0, 1, 1, 2, 3, 4, 5, 5, 6, 6, 7]
+    ops = ops or [0, 1, 1, 2, 3, 4, 5, 5, 6, 6, 7, 8, 8, 9]
     for op in ops:
         if op == 0:
             out.append(mk(0, subsets=all_subsets(rng, n)))
@@ -369,6 +432,21 @@ def cases_for_context(rng, ctx, cols, ops=None, origin='random'):
             out.append(mk(3, subsets=[a]))
         elif op == 4:
             out.append(mk(4))
+        elif op == 8:
+            a = c13.random_base(rng, n) or []
+            out.append(mk(8, subsets=[a], thr=rng.choice([0, 0, 1])))
+        elif op == 9:
+            js = rng.sample(range(m), rng.randint(0, m))
+            ds, kinds = [], []
+            for j in js:
+                cands = [d for d in column_descs(cols[j]) if not (cols[j]['kind'] == 'set' and d is None)]
+                ds.append([ctx['pnames'][j], rng.choice(cands)])
+                kinds.append(cols[j]['kind'])
+            if rng.random() < 0.15:
+                pos = rng.randint(0, len(ds))
+                ds.insert(pos, [UNKNOWN + rng.randrange(3), True])
+                kinds.insert(pos, 'attr')
+            out.append(mk(9, ds=ds, ds_kinds=kinds))
         elif op in (5, 6):
             pass
         elif op == 7:
@@ -428,7 +506,7 @@ def history_cases(rng, max_rows):
             'requery_twice': rng.random() < 0.2}
     if rng.random() < 0.5 and 'binarize' not in hist['pre_ops']:
         hist['pre_ops'].insert(0, 'binarize')
-    out = cases_for_context(rng, ctx, after, ops=[0, 1, 4, 5, 6, 7], origin='history')
+    out = cases_for_context(rng, ctx, after, ops=[0, 1, 3, 4, 5, 6, 7, 8], origin='history')
     for c in out:
         c['history'] = hist
     return out
@@ -457,7 +535,7 @@ def generate(rng, tier):
     ex = []
     for n, cols in exhaustive_contexts():
         ctx = base_ctx(rng, n, cols)
-        ex += cases_for_context(rng, ctx, cols, ops=[0, 4, 5, 6, 7], origin='exhaustive')
+        ex += cases_for_context(rng, ctx, cols, ops=[0, 4, 5, 6, 7, 8], origin='exhaustive')
     if tier == 'thorough':
         cases += ex
         n_ctx, n_hist, rows = 2400, 700, 9
@@ -499,6 +577,7 @@ def stats(case):
          'origin': case.get('origin', ''), 'shape': 'objects<=bin_attrs' if case['n'] <= nbin else 'objects>bin_attrs'}
     if case['op'] in (5, 6):
         d['path'] = 'objectwise' if case['thr'] < nbin else 'binarise'
+    d['name_order'] = 'same' if attr_order(case) == list(range(len(case['cols']))) else 'permuted'
     if case.get('history'):
         d['history'] = case['history'].get('how', '')
         d['history_pre_ops'] = len(case['history'].get('pre_ops', []))
@@ -534,11 +613,16 @@ def shrink(case):
             c = dict(case)
             c['cols'] = [col for i, col in enumerate(case['cols']) if i != j]
             c['pnames'] = [v for i, v in enumerate(case['pnames']) if i != j]
+            c['attr_order'] = [x - 1 if x > j else x for x in attr_order(case) if x != j]
             if case.get('history'):
                 hh = dict(case['history'])
                 hh['before'] = [col for i, col in enumerate(case['history']['before']) if i != j]
                 c['history'] = hh
             out.append(c)
+    if attr_order(case) != list(range(m)):
+        c = dict(case)
+        c['attr_order'] = list(range(m))
+        out.append(c)
     if case['op'] == 0 and len(case['subsets']) > 1:
         v = case['subsets']
         half = len(v) // 2
